@@ -195,6 +195,36 @@ def run(chk, model_ok=True):
         if why and any(w in why for w in ("carries user", "engine id", "boots/time", "security flags", "failed with")):
             fail(f"{key}: {why}", f"# client {key}")
     chk.coverage["client_runs"] = n_cli
+    # the buffer pool on its own: programs of acquire / write / drop with several handles out at once; every
+    # buffer handed out must be empty (oracle), and the run must agree with Model/Pool.lean (correspondence)
+    from vlib import streams
+    def pool_prog():
+        ops, live, nh = [], [], 0
+        for _ in range(rng.randrange(1, 25)):
+            r = rng.random()
+            if r < 0.4 or not live:
+                ops.append("a"); live.append(nh); nh += 1
+            elif r < 0.75:
+                k = rng.choice(live)
+                ln = rng.choice([1, 2, 7, 100, 1000, 2040, 4079, 4080, 4081]) if rng.random() < 0.5 else rng.randrange(1, 300)
+                ops.append(f"w{k}:" + bytes(rng.getrandbits(8) for _ in range(min(ln, 64))).hex() * 1
+                           if ln <= 64 else f"w{k}:" + (bytes([rng.getrandbits(8)]) * ln).hex())
+            else:
+                k = rng.choice(live); live.remove(k); ops.append(f"d{k}")
+        return "pool " + ";".join(ops)
+    stp = streams.Streams(chk, model_ok)
+    stp.add("pool", [pool_prog() for _ in range(400 if quick else 20000)])
+    stp.run()
+    for ln, out in zip(stp.lines, stp.impl):
+        if not out.startswith("ok "):
+            fail(f"pool program failed: {out[:80]}", ln)
+            continue
+        for op, res in zip(ln[5:].split(";"), out[3:].split(";")):
+            if op == "a" and res != "0":
+                fail(f"the pool handed out a buffer that already holds {res} octets (pooled buffers must come back reset)", ln)
+                break
+    stp.diff("C03 buffer pool")
+    chk.coverage["pool_programs"] = len(stp.lines)
     if model_ok and lines:
         out, rc, err = common.run_model(lines)
         nd = 0
